@@ -109,3 +109,18 @@ func Arch(raw []byte, out chan<- *info, errs chan<- error) {
 		errs <- err
 	}()
 }
+
+// Chomp is the positive control of R11q: two bytes cut off the end of a line nobody measured.
+func Chomp(line string) string {
+	return line[:len(line)-2]
+}
+
+// Place is the positive control of R16k: the count copy returns stands in for the length of the source.
+func Place(area []byte, parts ...[]byte) (int, bool) {
+	used := 0
+	for _, p := range parts[:1] {
+		used += len(p)
+	}
+	used = copy(area, parts[0])
+	return used, used <= len(area)
+}
